@@ -234,7 +234,7 @@ def c11_instance(pn: bool, pp: bool, pd: bool, pa: bool, n0: int, n1: int, p0: i
     return len(bi) == 1 and bi[0].getAttribute("jr:preload") == "uid" and bi[0].getAttribute("readonly") == "true()"
 
 
-def c11_defaults(has_settings: bool, pt: bool, pi: bool, pstem: bool, omit: int, t0: int, t1: int, i0: int, i1: int, f0: int, f1: int) -> bool:
+def c11_defaults(has_settings: bool, pt: bool, pi: bool, pstem: bool, p_iname: bool, omit: int, t0: int, t1: int, i0: int, i1: int, f0: int, f1: int) -> bool:
     """
     vpre: 33 <= t0 <= 126 and t0 != 36 and 33 <= t1 <= 126 and t1 != 36
     vpre: 33 <= i0 <= 126 and i0 != 36 and 33 <= i1 <= 126 and i1 != 36
@@ -254,6 +254,8 @@ def c11_defaults(has_settings: bool, pt: bool, pi: bool, pstem: bool, omit: int,
             st["form_id"] = I
         if omit_v is not None:
             st["omit_instanceID"] = omit_v
+        if p_iname:
+            st["instance_name"] = "'nm'"
         st["version"] = "1"
         wb["settings"] = [st]
     kw = {}
@@ -267,6 +269,14 @@ def c11_defaults(has_settings: bool, pt: bool, pi: bool, pstem: bool, omit: int,
     exp_id = I if (has_settings and pi) else (F if pstem else "data")
     exp_title = T if (has_settings and pt) else exp_id
     if prim.getAttribute("id") != exp_id or text_of(title) != exp_title or prim.tagName != "data":
+        return False
+    # instance_name is independent of omit_instanceID
+    bn = _bind_for(model, "/data/meta/instanceName")
+    has_in = any(c.tagName == "instanceName" for c in elements(prim))
+    if has_settings and p_iname:
+        if not has_in or len(bn) != 1 or bn[0].getAttribute("calculate") != "'nm'":
+            return False
+    elif has_in or bn:
         return False
     omitted = has_settings and omit_v in ("yes", "true()", "TRUE")
     has_iid = any(c.tagName == "instanceID" for c in elements(prim))
@@ -284,7 +294,7 @@ specialise(
     timeout=300,
     kernel=K,
     shims=("S1", "S2", "S3", "S4"),
-    symbolic="presence of form_title / form_id / settings sheet / fallback stem (4 symbolic booleans); title, id, stem: 2 symbolic characters each",
+    symbolic="presence of form_title / form_id / settings sheet / fallback stem / instance_name (5 symbolic booleans); title, id, stem: 2 symbolic characters each",
     bounds="one-question form; omit_instanceID spelling fixed per instance over {absent, yes, true(), TRUE, no, false()}; values length 2",
     weight=60,
 )
@@ -400,3 +410,46 @@ specialise(
     bounds="Markdown form delivered as a path (in-memory file table behind pathlib); with and without a form_title setting",
     weight=40,
 )
+
+
+# ---- a: both spellings of the form id present, in either column order --------------------------------
+@ob(
+    "C11",
+    "a.routing.id-aliases",
+    timeout=300,
+    kernel=K,
+    shims=("S1", "S2", "S3", "S4"),
+    symbolic="form_id and id_string values (2 symbolic characters each), which column comes first (boolean), header row supplied explicitly or derived from the row (boolean), title given as form_title / title / both (symbolic int)",
+    bounds="one-question form whose settings sheet carries both documented spellings of the id column",
+    weight=40,
+)
+def c11_id_aliases(form_id_first: bool, explicit_header: bool, tsel: int, i0: int, i1: int, j0: int, j1: int) -> bool:
+    """
+    pre: 0 <= tsel <= 2
+    pre: 33 <= i0 <= 126 and i0 != 36 and 33 <= i1 <= 126 and i1 != 36
+    pre: 33 <= j0 <= 126 and j0 != 36 and 33 <= j1 <= 126 and j1 != 36
+    post: _ == True
+    """
+    I, J = S(i0, i1), S(j0, j1)
+    st = {}
+    cells = [("form_id", I), ("id_string", J)]
+    if not form_id_first:
+        cells.reverse()
+    for k, v in cells:
+        st[k] = v
+    if tsel == 1:
+        st["form_title"] = "TT"
+    elif tsel == 2:
+        st["title"] = "TT"
+    wb = {"survey": [{"type": "text", "name": "q1", "label": "L"}], "settings": [st]}
+    if explicit_header:
+        wb["settings_header"] = [{k: None for k in st}]
+    survey, warnings, _js = build_survey(wb)
+    p = _parts(survey.xml())
+    if p is None:
+        return False
+    head, body, title, model, prim = p
+    # form_id is the id; the legacy spelling is ignored when both are present
+    if prim.getAttribute("id") != I:
+        return False
+    return text_of(title) == ("TT" if tsel else I)
